@@ -272,6 +272,12 @@ def gen_programs(ctx, quick, boost):
     r = ctx.rng.fork("ringwrap")
     for k in range(nring):
         items.append(("W%d" % k, r.below(1 << 31), P.with_heap(P.ringwrap_program(r), 5 if k % 8 else 1 + (k // 8) % 4, 3 if k % 16 == 0 else 1)))
+    nwait = (1500 if quick else 40000) * boost
+    r = ctx.rng.fork("waiters")
+    for k in range(nwait):
+        items.append(("K%d" % k, r.below(1 << 31), P.with_heap(P.waiters_program(r), 5, 1)))
+    dist["waiters (3-6 fibers waiting repeatedly on 1-2 channels of capacity 0..1, served by main between sleeps; heap payloads, forced "
+         "collections, spawned fibers referenced by the event loop / the channels only)"] = nwait
     nsup = (1200 if quick else 40000) * boost
     r = ctx.rng.fork("supervised")
     for k in range(nsup):
